@@ -44,7 +44,7 @@ NoReq == [acc |-> FALSE, kind |-> "none", num |-> 0, nc |-> 1, gname |-> "", exp
 
 MonInit ==
   [pos |-> 0, cls |-> "", ps |-> "", size |-> Inf, sizeFixed |-> TRUE, implBase |-> Inf, lastSetPos |-> 0,
-   endsSinceSet |-> 0, C |-> {}, alive |-> {}, T |-> <<>>, R |-> <<>>, liveG |-> {}, Gobs |-> <<>>,
+   endsSinceSet |-> 0, C |-> {}, alive |-> {}, prevAlive |-> {}, T |-> <<>>, R |-> <<>>, liveG |-> {}, Gobs |-> <<>>,
    forgot |-> {}, maybe |-> {}, closed |-> FALSE, H |-> <<>>, lastO |-> <<0, 0, 0, 0, 0, Inf>>,
    lastCall |-> -2, void |-> FALSE, inj |-> {}, cbCanc |-> FALSE, extCanc |-> FALSE, gfPos |-> 0, anyExc |-> FALSE,
    viol |-> {}, hit |-> {}]
@@ -98,7 +98,7 @@ Pre(g0, e) ==
       vs  == Chk("C11.dense", -1, new = {} \/ new = n .. (n + Card(new) - 1))
              \cup Chk("C11.reuse", -1, (al \cap g.C) \subseteq g.alive /\ ~Has(e, "dupobj"))
       T2  == [id \in (DOMAIN g.T) \cup new |-> IF id \in DOMAIN g.T THEN g.T[id] ELSE NewT(g.pos)]
-  IN Out([g EXCEPT !.C = @ \cup new, !.alive = al, !.T = T2], vs, Hit("C11.dense", new # {}))
+  IN Out([g EXCEPT !.C = @ \cup new, !.prevAlive = g.alive, !.alive = al, !.T = T2], vs, Hit("C11.dense", new # {}))
 
 (* ---- 2. group snapshots (C10, C07.forgot) ------------------------------------------------------- *)
 GroupObs(g, e) ==
@@ -236,7 +236,9 @@ ReqDone(g, r) ==          \* definitely nothing left to do for request r (conser
 ReqKfE(g, r) == IF g.R[r].kind = "start" THEN g.R[-1].kfE ELSE g.R[r].kfE
 
 (* ---- 4. operations ------------------------------------------------------------------------------ *)
-SameObs(g, e) == e.o = g.lastO /\ ~Has(e, "al") /\ ~Has(e, "G")
+GSame(g, e) == ~Has(e, "G") \/ e.G = g.Gobs           \* group membership as last reported is unchanged
+ASame(g, e) == g.alive = g.prevAlive                   \* no pool task was created or finished by this event
+SameObs(g, e) == e.o = g.lastO /\ ASame(g, e) /\ GSame(g, e)
 
 OnSpawn(g, e) ==
   LET isMap == e.kind \in MapKinds
@@ -304,7 +306,7 @@ OnCancelGroup(g, e) ==
   LET known == e.g \in g.liveG
       okRes == e.res = "ok"
       v1 == Chk("C07.unknown", -1, known <=> okRes)
-            \cup Chk("C07.unknown", -1, ~known => ("InvalidGroupName" \in SeqSet(e.isa) /\ e.o = g.lastO /\ ~Has(e, "G")))
+            \cup Chk("C07.unknown", -1, ~known => ("InvalidGroupName" \in SeqSet(e.isa) /\ e.o = g.lastO /\ GSame(g, e)))
       g2 == IF okRes THEN CancelGroups(g, {e.g}) ELSE g
   IN Out(g2, v1, Hit("C07.group", okRes) \cup Hit("C07.unknown", ~known)
                  \cup Hit("C07.inhandle", okRes /\ e.where # "gap"))
@@ -346,7 +348,7 @@ OnLockUnlock(g, e) ==
       misuse == e.name = "unlock" /\ \E h \in DOMAIN g.H : g.H[h].kind = "gac" /\ g.H[h].st \in {"created", "begun"}
       g1 == IF misuse THEN [g0 EXCEPT !.void = TRUE] ELSE g0
   IN Out(g1, Chk("C09.lock", -1, e.res = "ok" /\ o[5] = want /\ o[1] = l[1] /\ o[2] = l[2] /\ o[3] = l[3]
-                                 /\ o[4] = l[4] /\ o[6] = l[6] /\ ~Has(e, "al") /\ ~Has(e, "G")),
+                                 /\ o[4] = l[4] /\ o[6] = l[6] /\ ASame(g, e) /\ GSame(g, e)),
          Hit("C09.lock", TRUE) \cup Hit("C09.idem", l[5] = want))
 
 OnSetSize(g, e) ==
@@ -578,4 +580,21 @@ Dispatch(g, e) ==
 
 MonStep(g, e) == Post(GroupObs(Dispatch(Pre(g, e), e), e), e)
 
+Clauses(p) ==       \* the clause names of each property (used by the model-checking invariants)
+  CASE p = "C01" -> {"C01.full", "C01.live", "C01.reported"}
+    [] p = "C02" -> {"C02.ecb", "C02.final", "C02.idle", "C02.probe", "C02.room"}
+    [] p = "C03" -> {"C03.ccb", "C03.count", "C03.done", "C03.ecb", "C03.trans"}
+    [] p = "C04" -> {"C04.args", "C04.calls", "C04.count", "C04.tasks"}
+    [] p = "C05" -> {"C05.complete", "C05.conc", "C05.lazy", "C05.order", "C05.work"}
+    [] p = "C06" -> {"C06.allornothing", "C06.deliver", "C06.err", "C06.other"}
+    [] p = "C07" -> {"C07.all", "C07.forgot", "C07.nostart", "C07.unknown"}
+    [] p = "C08" -> {"C08.closed", "C08.normal", "C08.until", "C08.wait"}
+    [] p = "C09" -> {"C09.err", "C09.lock", "C09.noeffect"}
+    [] p = "C10" -> {"C10.disjoint", "C10.exact", "C10.member", "C10.names", "C10.unknown"}
+    [] p = "C11" -> {"C11.dense", "C11.name", "C11.pools", "C11.reuse"}
+    [] p = "C12" -> {"C12.surface"}
+    [] p = "C13" -> {"C13.forget", "C13.keep", "C13.nothrow"}
+    [] p = "C14" -> {"C14.count", "C14.lifo"}
+    [] p = "C15" -> {"C15.get", "C15.limit", "C15.neg", "C15.raise", "C15.set"}
+    [] OTHER -> {}
 =============================================================================
